@@ -106,9 +106,9 @@ static std::string check_hooks( bool has_unwind, bool& action_exc_defect )
 // ---------------------------------------------------------------- one execution
 static long exec_in_prog = 0;
 
-static void report( const char* pid, const std::string& what, const Case& c, const std::string& extra = "" )
+static void report( const char* pid, const std::string& what, const Case& c, const std::string& extra = "", bool with_root = true )
 {
-   const std::string sig = std::string( pid ) + "|" + what + "|root=" + opinfo[ tab[ 0 ].op ].name;
+   const std::string sig = std::string( pid ) + "|" + what + ( with_root ? std::string( "|root=" ) + opinfo[ tab[ 0 ].op ].name : std::string() );
    vf::violation( sig, "\"table\":\"" + vf::jesc( show_tab( c.nrules ) ) + "\",\"input\":\"" + vf::jesc( vf::show( c.input ) ) + "\",\"cfg\":\"" + c.cfg.str() + "\",\"choices\":\"" + X.str() + "\"" + ( extra.empty() ? "" : ",\"info\":\"" + vf::jesc( extra ) + "\"" ), c.str( X.str() ) );
 }
 
@@ -142,7 +142,18 @@ static void one_execution( const Case& c, const std::vector< int >& pre, bool ve
    ++vf::st.evaluations;
    In in( buf.p, buf.p + buf.n, "src", g_ib, g_il, g_ic );
    check_positions = S.check_positions;
-   const Real r = run_impl( c.cfg, in, S.fuel );
+   verif_c03 = 0;
+   Real r;
+   fault_armed = 1;
+   if( sigsetjmp( fault_jmp, 1 ) == 0 ) {
+      r = run_impl( c.cfg, in, S.fuel );
+      fault_armed = 0;
+   }
+   else {
+      report( "C03", "memory access outside the input buffer (guard page fault)|" + innermost_rule_name(), c, "", false );
+      L.frames.clear();
+      return;
+   }
    if( verbose ) {
       printf( "table: %s\ninput: '%s' cfg=%s choices=%s\nimpl: %s pos=%d who=%d msg='%s' byte=%zu line=%zu col=%zu nested=%d\n", show_tab( c.nrules ).c_str(), vf::show( c.input ).c_str(), c.cfg.str().c_str(), X.str().c_str(), real_name( r.kind ), r.pos, r.who, r.msg.c_str(), r.byte, r.line, r.column, int( r.nested ) );
       if( div )
@@ -176,9 +187,10 @@ static void one_execution( const Case& c, const std::vector< int >& pre, bool ve
       report( exc ? S.exc_prop : S.result_prop, S.check_positions ? "match result differs from the reference (rule outcome depends on a position counter): " + cls : cls, c, j );
    }
    // ---- online monitors
-   if( L.c02 ) report( "C02", strip_ns( L.c02_msg ), c );
-   if( L.c03 ) report( "C03", strip_ns( L.c03_msg ), c );
-   if( L.c04 ) report( "C04", strip_ns( L.c04_msg ), c );
+   if( L.c02 ) report( "C02", L.c02_msg, c, "", false );
+   if( L.c03 ) report( "C03", L.c03_msg, c, "", false );
+   if( verif_c03 ) report( "C03", L.c03_hook.empty() ? std::string( verif_c03_what ) + "|top level" : L.c03_hook, c, "", false );
+   if( L.c04 ) report( "C04", L.c04_msg, c, "", false );
    if( L.c06 ) report( "C06", strip_ns( L.c06_msg ) + ( ( g_ib | ( g_il - 1 ) | ( g_ic - 1 ) ) ? "|non-default initial counters" : "|default counters" ), c, L.c06_info );
    // ---- surviving action log (C04)
    if( S.check_actions && r.kind == Real::OK && o.k == R::OK ) {
@@ -256,15 +268,17 @@ static void apply_flags( const std::string& f )
       g_il = size_t( atol( v[ 6 ].c_str() ) );
       g_ic = size_t( atol( v[ 7 ].c_str() ) );
    }
+   if( v.size() >= 9 ) buf_mode = atoi( v[ 8 ].c_str() );
 }
 static std::string flags_str()
 {
-   return std::to_string( int( hole_may_throw ) ) + "," + std::to_string( int( act_may_veto ) ) + "," + std::to_string( int( act_may_throw ) ) + "," + std::to_string( X.bound ) + "," + std::to_string( int( hole_bounded ) ) + "," + std::to_string( g_ib ) + "," + std::to_string( g_il ) + "," + std::to_string( g_ic );
+   return std::to_string( int( hole_may_throw ) ) + "," + std::to_string( int( act_may_veto ) ) + "," + std::to_string( int( act_may_throw ) ) + "," + std::to_string( X.bound ) + "," + std::to_string( int( hole_bounded ) ) + "," + std::to_string( g_ib ) + "," + std::to_string( g_il ) + "," + std::to_string( g_ic ) + "," + std::to_string( buf_mode );
 }
 
 int main( int argc, char** argv )
 {
    vf::parse_args( argc, argv );
+   install_fault_handler();
    S.configure( vf::args.thorough() );
    if( vf::args.replay ) {
       auto f = vf::split( vf::args.the_case, '|' );
@@ -285,17 +299,20 @@ int main( int argc, char** argv )
       act_may_throw = ph.act_may_throw;
       X.bound = ph.dev_bound;
       hole_bounded = ph.hole_bounded;
+      const double t_phase = vf::elapsed();
+      long progs_here = 0;
+      for( int bm : ph.buf_modes ) {
+      buf_mode = bm;
       ProgEnum pe;
       pe.maxn = ph.N;
       pe.root = ops_of( ph.root );
       pe.inner = ops_of( ph.inner );
       pe.flat_inner = ph.flat_inner;
-      const double t_phase = vf::elapsed();
-      long progs_here = 0;
       std::vector< std::string > inputs;
       for_inputs( ph.sigma, ph.L, [ & ]( const std::string& s ) {
          if( int( s.size() ) >= ph.Lmin ) inputs.push_back( s );
       } );
+      for( const auto& s : ph.extra_inputs ) inputs.push_back( s );
       pe.run( [ & ]( int n ) {
          int nholes = 0;
          for( int i = 0; i < n; ++i ) nholes += ( tab[ i ].op == HOLE );
@@ -325,6 +342,7 @@ int main( int argc, char** argv )
             }
          }
       } );
+      }
       if( getenv( "VERIF_DEBUG" ) ) fprintf( stderr, "phase %s: programs(this shard) %ld, evaluations so far %ld, %.1fs\n", ph.name, progs_here, vf::st.evaluations, vf::elapsed() - t_phase );
    }
    vf::st.states += X.nodes + vf::st.evaluations;  // programs + choice nodes + leaves
